@@ -232,6 +232,11 @@ static void run_case(cs::Src& s, cs::Ctx& ctx) {
   o.top_container = s.chance(5, 6);
   o.max_depth = (size_t)s.range(1, 5);
   o.long_strings = s.chance(1, 3);
+  if (s.chance(1, 8)) {  // containers with 8..40 children (fix / 16-bit count families)
+    o.max_children = 40;
+    o.node_budget = 80;
+    o.max_depth = 2;
+  }
   Val v = gen::gen_value(s, o);
   if (s.chance(1, 12)) {
     // a long string (or bin) early in the input followed by many small values: what a filter discards
